@@ -2271,3 +2271,39 @@ CASES += [
          new="""        let cleaned: String = input.replace('\\r', "").lines().filter(|l| !l.trim_start().starts_with('%')).collect::<Vec<_>>().join("\\n");
         let (_, cvec) = match parse_dimacs(&cleaned).unwrap() {"""),
 ]
+
+VOF = "src/repr/var_order.rs"
+CASES += [
+    # ------------------------------------------------------------------ DF (round 9: two agents independently "hardened" VarOrder::get)
+    dict(name="df-order-position-defaults-to-last", file=VOF, rule="DF", props=["C01", "C02", "C14"], expect="VarOrder::get:VarOrder.var_to_pos:no-default",
+         old="""        self.var_to_pos[var.value() as usize]
+    }""",
+         new="""        self.var_to_pos.get(var.value() as usize).copied().unwrap_or(self.var_to_pos.len())
+    }"""),
+    dict(name="df-weight-defaults-to-one", file="src/repr/wmc.rs", rule="DF", props=["C07", "C08", "C11"], expect="var_weight:WmcParams.var_to_val:no-default",
+         old="""        return (self.var_to_val[label.value_usize()]).as_ref().unwrap();""",
+         new="""        match self.var_to_val.get(label.value_usize()) {
+            Some(Some(w)) => w,
+            _ => &self.fallback,
+        }""",
+         more=[("src/repr/wmc.rs", """    var_to_val: Vec<Option<(T, T)>>,
+}""", """    var_to_val: Vec<Option<(T, T)>>,
+    fallback: (T, T),
+}"""),
+               ("src/repr/wmc.rs", """            var_to_val: var_to_val_vec,
+        }""", """            var_to_val: var_to_val_vec,
+            fallback: (T::one(), T::one()),
+        }"""),
+               ("src/repr/wmc.rs", """            var_to_val: Vec::new(),
+        }""", """            var_to_val: Vec::new(),
+            fallback: (T::one(), T::one()),
+        }""")]),
+    dict(name="df-checked-lookup-that-still-refuses-ok", file=VOF, rule="DF", props=["C01", "C02", "C14"], expect=None,
+         old="""        self.var_to_pos[var.value() as usize]
+    }""",
+         new="""        match self.var_to_pos.get(var.value() as usize) {
+            Some(p) => *p,
+            None => panic!("variable {:?} is not in the order", var),
+        }
+    }"""),
+]
